@@ -117,7 +117,12 @@ func (s *Service) lastPruned(ctx context.Context) (*header.ExtendedHeader, error
 		return s.hstore.GetByHeight(ctx, lastPruned)
 	}
 
-	s.checkpoint.LastPrunedHeight = tail.Height()
+	if tail.Height() > lastPruned {
+		// The tail of the header store moved past the checkpoint: block data below the tail
+		// was pruned while the headers were deleted, but the data of the new tail was not.
+		// Keep the checkpoint right below the tail, so that it still gets pruned.
+		s.checkpoint.LastPrunedHeight = tail.Height() - 1
+	}
 	for height := range s.checkpoint.FailedHeaders {
 		if height < tail.Height() {
 			delete(s.checkpoint.FailedHeaders, height)
